@@ -158,3 +158,25 @@ def wit_d19():
 
 SIGNATURES["D19-C12"] = sig_d19
 WITNESSES["D19-C12"] = wit_d19
+
+def sig_d22(info, t):
+    """linear policy with l2_lambda = 0 whose training call raised LinAlgError (singular matrix of a later arm)"""
+    b = _base(t)
+    return bool(b) and b.get("lp", [None])[0] in ("lingreedy", "linucb") and float(b["lp"][2]) == 0.0 and info.get("exception") == "LinAlgError"
+
+def wit_d22():
+    import copy, numpy as np
+    from mabwiser.mab import MAB, LearningPolicy
+    m = MAB([1, 2], LearningPolicy.LinGreedy(epsilon=0.0, l2_lambda=0.0), seed=1)
+    m.fit(np.array([1, 1]), np.array([1.0, 2.0]), np.array([[1.0, 0.0], [0.0, 1.0]]))
+    twin = copy.deepcopy(m)
+    try:
+        m.partial_fit(np.array([1, 2]), np.array([5.0, 1.0]), np.array([[1.0, 1.0], [1.0, 2.0]]))
+        return False
+    except Exception:
+        pass
+    q = np.array([[1.0, 1.0]])
+    return m.predict_expectations(q) != twin.predict_expectations(q)
+
+SIGNATURES["D22-C17"] = sig_d22
+WITNESSES["D22-C17"] = wit_d22
